@@ -1103,6 +1103,7 @@ type repMsg struct {
 	Token  int
 	Second bool
 }
+type poke struct{}
 type fire struct {
 	Token int
 	done  chan struct{}
@@ -1165,6 +1166,10 @@ func runRequests(c RCase) (map[string]int, error) {
 					ctx.Respond(repMsg{Token: m.Token})
 					close(m.replied)
 				}
+			case poke:
+				// a message that came without a sender: there is nobody to respond to, whoever was answered
+				// (or not answered) before
+				ctx.Respond(repMsg{Token: -7})
 			case fire:
 				if p := held[m.Token]; p != nil {
 					ctx.Send(p, repMsg{Token: m.Token})
@@ -1241,6 +1246,11 @@ func runRequests(c RCase) (map[string]int, error) {
 				defer e.Poison(rp)
 			}
 			out[i].respID = rs.PID().ID
+			if r.B == "none" || r.B == "late" {
+				// the responder keeps silent on the request; then it gets a message WITHOUT a sender and
+				// calls Respond: that must go nowhere - not to this request, which is still waiting
+				e.Send(resp[r.R], poke{})
+			}
 			if r.B == "held" {
 				// the reply is in the response's mailbox, well inside the timeout; Result() is called late
 				if err := waitCh(rq.replied, "responder did not reply"); err != nil {
